@@ -484,7 +484,13 @@ fn gen_hal(tier: &str, rng: &mut Rng, out: &mut Vec<Rec>) {
         let mask_b = if code == 5003 || code == 5004 { -1 } else { pick_mask(rng, vbits) };
         let mut vs = vec![vals(rng, n * acols * asize, vbits)];
         match code {
-            5003 => vs.push(vals(rng, bsize, vbits)),
+            5003 => {
+                // constants with zero limbs in front of / between non-zero ones in half of the records (sparse constants take
+                // their own paths in the vectorised kernels)
+                let mut c = vals(rng, bsize, vbits);
+                if rng.below(2) == 0 { for x in c.iter_mut() { if rng.below(2) == 0 { *x = 0; } } }
+                vs.push(c)
+            }
             5004 => vs.push(vec![]),
             _ => vs.push(vals(rng, n * bcols * bsize, vbits)),
         }
@@ -492,6 +498,25 @@ fn gen_hal(tier: &str, rng: &mut Rng, out: &mut Vec<Rec>) {
         let ps: Vec<i128> = vec![be, n as i128, rcols as i128, rsize as i128, rcol as i128, acols as i128, asize as i128, acol as i128,
             bcols as i128, bsize as i128, bcol as i128, pasz as i128, pbsz as i128, cnv_offset as i128, mask_a, mask_b, ci as i128, cj as i128];
         out.push(Rec::new(code, ps, vs));
+    }
+    // multiplication by a constant whose limbs are sparse: zero limbs in front of and between non-zero ones, every backend,
+    // several offsets (a kernel that skips zero limbs must still advance through the operand)
+    let pats: [&[i128]; 7] = [&[5, 0, 7], &[0, 11], &[0, 0, -3, 0, 1], &[9, 0, 0, 4], &[0, -2, 0], &[1, 0], &[0, 0, 0, 6]];
+    for be in 1..=4i128 {
+        for (pi, pat) in pats.iter().enumerate() {
+            for (asize, n) in [(2usize, 8usize), (4, 16), (3, 32)] {
+                if tier != "thorough" && (pi + asize) % 2 == 1 && n != 8 { continue; }
+                let bsize = pat.len();
+                let full = asize + bsize;
+                for cnv_offset in [0usize, 1, full / 2] {
+                    let rsize = full;
+                    let vs = vec![vals(rng, n * asize, 20), pat.to_vec(), vals(rng, n * rsize, 40)];
+                    let ps: Vec<i128> = vec![be, n as i128, 1, rsize as i128, 0, 1, asize as i128, 0, 1, bsize as i128, 0,
+                        asize as i128, bsize as i128, cnv_offset as i128, -1, -1, 0, 0];
+                    out.push(Rec::new(5003, ps, vs));
+                }
+            }
+        }
     }
 }
 
